@@ -41,7 +41,7 @@ def run(chk):
         chk.coverage["streams"]["corpus"] = {"cases": rc.stats.get("cases", 0),
                                              "rule": "corpus/C20/witnesses.json replayed (same comparison as the main stream)"}
         vf.compare(chk, rc, classify=classify, binpath=binp, stream_label="corpus")
-    n = 800 if chk.tier == "quick" else 6000
+    n = 500 if chk.tier == "quick" else 6000
     extra = [] if chk.tier == "quick" else ["--thorough"]
     r = vf.run_stream(binp, "output", n, chk.seed, os.path.join(chk.outdir, "output"), extra=extra, replay=chk.replay)
     chk.add_stream(r, RULE)
